@@ -54,6 +54,10 @@ func runPreproc(o *Options, res *Result, rng *RNG, n int) error {
 	}
 	dir := o.WorkDir + "/preproc"
 	_ = os.MkdirAll(dir, 0o755)
+	// the same cases through the clean-up of the parser model (Model/Parser.v preprocess_re over the
+	// two expressions regenerated from the source)
+	gennow, gerr := prepareGenNow(o)
+	usePM := gerr == nil
 	// one coqc per shard of 1000 cases (a single list of all thorough-tier cases overflows
 	// coqc's stack), eight at a time
 	const shard = 1000
@@ -84,7 +88,13 @@ func runPreproc(o *Options, res *Result, rng *RNG, n int) error {
 			sb.WriteString("From DT Require Import Model.Bytes Model.Preproc Model.VCase.\nFrom Coq Require Import List.\nImport ListNotations.\nLocal Open Scope hb_scope.\n")
 			fmt.Fprintf(&sb, "Definition cases : list (bool * bytes * bytes) := %s.\n", gList(items))
 			sb.WriteString("Fixpoint mism (i : nat) (l : list (bool * bytes * bytes)) : list nat :=\n  match l with\n  | [] => []\n  | (k, s, out) :: r => if bytes_eqb (preprocess k s) out then mism (S i) r else i :: mism (S i) r\n  end.\n")
-			sb.WriteString("Definition bad := Eval vm_compute in mism 0 cases.\nPrint bad.\n")
+			if usePM {
+				sb.WriteString("From DT Require Import Model.Regex Model.ParserRe Model.Parser.\nFrom GenNow Require Import RegexTable.\n")
+				sb.WriteString("Fixpoint mism2 (i : nat) (l : list (bool * bytes * bytes)) : list nat :=\n  match l with\n  | [] => []\n  | (k, s, out) :: r => if bytes_eqb (preprocess_re now k s) out then mism2 (S i) r else i :: mism2 (S i) r\n  end.\n")
+				sb.WriteString("Definition bad := Eval vm_compute in (mism 0 cases ++ mism2 0 cases)%list.\nPrint bad.\n")
+			} else {
+				sb.WriteString("Definition bad := Eval vm_compute in mism 0 cases.\nPrint bad.\n")
+			}
 			sdir := fmt.Sprintf("%s/s%d", dir, sh)
 			_ = os.MkdirAll(sdir, 0o755)
 			file := sdir + "/cases.v"
@@ -92,7 +102,11 @@ func runPreproc(o *Options, res *Result, rng *RNG, n int) error {
 				out[sh].err = err
 				return
 			}
-			co, err := coqcCmd("900", "-Q", o.CoqDir, "DT", "-Q", sdir, fmt.Sprintf("PP%d", sh), file).CombinedOutput()
+			args := []string{"-Q", o.CoqDir, "DT"}
+			if usePM {
+				args = append(args, "-Q", gennow, "GenNow")
+			}
+			co, err := coqcCmd("900", append(args, "-Q", sdir, fmt.Sprintf("PP%d", sh), file)...).CombinedOutput()
 			if err != nil {
 				out[sh].err = fmt.Errorf("coqc on %s: %v\n%s", file, err, tail(string(co), 1200))
 				return
@@ -119,8 +133,8 @@ func runPreproc(o *Options, res *Result, rng *RNG, n int) error {
 		for _, i := range out[sh].bad {
 			c := cs[i]
 			res.Mismatches++
-			res.AddViolation(&Violation{Kind: "no-failing-input-found", Class: "correspondence:preprocess", Lemma: "correspondence preprocess (Model/Preproc.v) vs cutComments/cutFmt (parser.go)",
-				What:   fmt.Sprintf("the model of the source clean-up and the parser differ on %q (keepFmt=%v): the parser goes on with %q", c.src, c.keep, c.out),
+			res.AddViolation(&Violation{Kind: "no-failing-input-found", Class: "correspondence:preprocess", Lemma: "correspondence preprocess (Model/Preproc.v) and preprocess_re (Model/Parser.v over the regenerated expressions) vs cutComments/cutFmt (parser.go)",
+				What:   fmt.Sprintf("a model of the source clean-up and the parser differ on %q (keepFmt=%v): the parser goes on with %q", c.src, c.keep, c.out),
 				Replay: map[string]any{"source": string(c.src), "source_hex": hx(c.src), "keep_fmt": c.keep, "parser_output": string(c.out)}})
 		}
 	}
